@@ -61,8 +61,18 @@ class ModelsWorld(World):
         if tier != "quick" and rng.random() > 0.25:
             weights["handoff"] = 0
         faulty = rng.random() < 0.4
+        if rng.random() < 0.08:
+            # single-fault sweep over one sampled save workload (see DESIGN 2.4)
+            tname = rng.choice(tnames)
+            return {
+                "world": cls.NAME, "mode": "sweep", "templates": [tname], "replicas": 3, "actors": 1, "paths": 1, "steps": 300,
+                "max_nv": rng.choice([1, 2]), "horizon": 3, "fault_kinds": list(FAULT_KINDS), "p_fault": 0.0, "p_short": 0.0,
+                "buffer": rng.choice([16, 256]), "weights": weights,
+                "sweep": {"side": rng.choice(["write", "write", "read"]), "target_calls": rng.choice([6, 12, 20]),
+                          "how": rng.choice(ADAPTERS[TEMPLATES[tname]["cls"]].file_kinds)},
+            }
         return {
-            "world": cls.NAME,
+            "world": cls.NAME, "mode": "random",
             "templates": rng.sample(tnames, rng.randint(1, 2)),
             "replicas": rng.randint(2, 5),
             "actors": rng.randint(1, 3),
@@ -144,6 +154,11 @@ class ModelsWorld(World):
     def gen_step(self, st):
         rng, val, sched, flt = st.get("ops"), st.get("values"), st.get("sched"), st.get("faults")
         cfg = self.cfg
+        if cfg.get("mode") == "sweep":
+            step = self._gen_sweep(rng, val, flt)
+            if step is not None:
+                step.setdefault("actor", "a0")
+            return step
         actor = f"a{sched.randrange(cfg['actors'])}"
         if not self.live:
             return self._gen_new(actor, rng, val, flt)
@@ -158,6 +173,97 @@ class ModelsWorld(World):
                 step["actor"] = actor
                 return step
         return self._gen_mutate(actor, rng, val, flt) or self._gen_new(actor, rng, val, flt)
+
+    def _gen_sweep(self, rng, val, flt):
+        sw = self.cfg["sweep"]
+        stt = getattr(self, "_sweep_state", None)
+        path = "/sim/m0.bin"
+        how = sw["how"]
+        tname = self.cfg["templates"][0]
+        if how == "to_portable_file" and TEMPLATES[tname]["shocks"]:
+            how = "save"          # known finding: portable export of models with shocks raises before any I/O
+        clean = {"buffer": self.cfg["buffer"], "short_write": None, "short_read": None, "faults": []}
+        if stt is None:
+            self._sweep_state = stt = {"phase": "new", "k": 0, "sub": 0, "init": None, "prep": 0}
+
+        def save_step(plan):
+            return {"op": "save", "args": {"h": stt["h"], "path": path, "how": how, "plan": plan}}
+
+        def load_step(plan):
+            return {"op": "load", "out": [self._name()], "args": {"path": path, "plan": plan}}
+        extra = [h for h in sorted(self.live) if h != stt.get("h")]
+        if stt["phase"] != "new" and stt.get("h") in self.live and extra:
+            return {"op": "drop", "args": {"h": extra[0]}}
+        if stt["phase"] == "new" or stt.get("h") not in self.live:
+            step = self._gen_new("a0", rng, val, flt) if stt["init"] is None else \
+                {"op": "new", "actor": "a0", "out": [self._name()], "args": stt["init"]}
+            stt["init"] = step["args"]
+            stt["h"] = step["out"][0]
+            stt["prep"] = 0
+            if stt["phase"] == "new":
+                stt["phase"] = "probe"
+            return step
+        cls = TEMPLATES[tname]["cls"]
+        if stt["prep"] < 2 and cls == "sim":
+            stt["prep"] += 1
+            return {"op": "mutate", "args": {"h": stt["h"], "m": {"k": "steady" if stt["prep"] == 1 else "solve"}}}
+        if stt["phase"] == "probe":
+            stt["phase"] = "probe_size"
+            return save_step(clean)
+        if stt["phase"] == "probe_size":
+            size = max(len(self.fs.files.get(path, b"")), 1)
+            stt["chunk"] = max(1, -(-size // sw["target_calls"]))
+            stt["phase"] = "count"
+            plan = dict(clean)
+            if sw["side"] == "write":
+                plan["short_write"] = stt["chunk"]
+                return save_step(plan)
+            plan["short_read"] = stt["chunk"]
+            return load_step(plan)
+        if stt["phase"] == "count":
+            stt["n"] = min(self._last_counts["write" if sw["side"] == "write" else "read"], 40)
+            stt["phase"] = "sweep"
+            stt["k"] = 0
+            self.probes["sweep_workloads"] += 1
+        if stt["phase"] == "sweep":
+            if stt["k"] >= stt["n"]:
+                stt["phase"] = "extra"
+                stt["k"] = 0
+            else:
+                k, sub = stt["k"], stt["sub"]
+                if sw["side"] == "write":
+                    if sub == 0:
+                        kind = ["write_enospc", "write_eio", "crash"][k % 3] if k % 5 else "crash"
+                        stt["sub"] = 1
+                        self.probes["sweep_fault_points"] += 1
+                        return save_step({"buffer": self.cfg["buffer"], "short_write": stt["chunk"], "short_read": None,
+                                          "faults": [{"kind": kind, "at": k, "keep": [0, 10, 200, 100000][k % 4]}]})
+                    if sub == 1:
+                        stt["sub"] = 2
+                        return load_step(clean)
+                    if sub == 2:
+                        stt["sub"] = 3
+                        return save_step(clean)
+                    stt["sub"] = 0
+                    stt["k"] += 1
+                    return load_step(clean)
+                stt["k"] += 1
+                self.probes["sweep_fault_points"] += 1
+                return load_step({"buffer": self.cfg["buffer"], "short_write": None, "short_read": stt["chunk"],
+                                  "faults": [{"kind": "read_eio", "at": k}]})
+        if stt["phase"] == "extra":
+            seq = [("open_enoent", 0), ("open_eacces", 0), ("open_enospc", 0), ("close_eio", 0)]
+            if stt["k"] >= 2 * len(seq):
+                return None
+            i, second = divmod(stt["k"], 2)
+            stt["k"] += 1
+            if second:
+                return load_step(clean)
+            kind, at = seq[i]
+            plan = {"buffer": self.cfg["buffer"], "short_write": None, "short_read": None, "faults": [{"kind": kind, "at": at}]}
+            self.probes["sweep_fault_points"] += 1
+            return save_step(plan) if sw["side"] == "write" else load_step(plan)
+        return None
 
     def _pick(self, rng, actor, pred=None):
         own = sorted(h for h, r in self.live.items() if r.owner == actor and (pred is None or pred(r)))
@@ -534,6 +640,7 @@ class ModelsWorld(World):
                 strip_traceback(e)
                 r, status = e, "raised"
         finally:
+            self._last_counts = dict(self.fs.counts)
             fired = self.fs.end_step()
         for k in fired:
             self.faults_fired[k] += 1
